@@ -364,6 +364,9 @@ func traceToOps(calls []rawCall, n *repoNames) traceResult {
 		if strings.Contains(c.Ret, "(INJECTED)") {
 			strs, _ := hexStrings(c.Args)
 			d := c.Name
+			if c.Name == "flock" && strings.Contains(c.Args, "LOCK_UN") {
+				d = "flock(LOCK_UN)"
+			}
 			if len(strs) > 0 {
 				d += " " + filepath.Base(strs[0])
 			} else if fd, okfd := fdOf(c.Args); okfd {
